@@ -481,6 +481,10 @@ func (e *Engine) fa(skey, fname, base string) string {
 	f := e.faFun(skey, fname)
 	term := "(" + f + " " + base + ")"
 	key := "inst:" + term
+	if strings.Contains(base, "q$") || strings.Contains(base, "p$") && strings.Contains(base, "|p$") {
+		// the base mentions a bound (quantifier / spec-function parameter) variable: no ground instance facts
+		return term
+	}
 	if !e.sc.seen[key] {
 		e.sc.seen[key] = true
 		inv := sym("fainv$" + skey + "$" + fname)
